@@ -2,6 +2,7 @@
 From Coq Require Import List Bool Arith ZArith Lia.
 Require Import HT Ext BodyTheoryCore GenPrelude TheoryPrelude FromTheory Leaf_theory.
 Require BodyTheoryFull.
+Require Import Leaf_dynamic.
 (* Frozen choice: a program P extended with choice atoms X (the Tseitin atoms) and negated constraints C (the clauses)
    has T as equilibrium model iff T satisfies P, violates no constraint, and no smaller H that AGREES WITH T ON X
    satisfies P: the auxiliary atoms never take part in minimisation. *)
@@ -22,12 +23,12 @@ Proof. intros A D h s T I G. split; [exact (C03_exists A D h s T I G)|intros v H
    emitted constraint and respects the pending placeholders *)
 Module F := BodyTheoryFull.
 Theorem C13_unique_extension_full : forall (A : Type) (A_eq_dec : forall a b : A, {a = b} + {a <> b}) (h : nat) (s : F.st A) (T : F.trace A),
-  F.Inv A A_eq_dec h nil s -> F.Gw A A_eq_dec s ->
+  F.Inv A A_eq_dec h nil s -> F.Gw A A_eq_dec s -> F.Wf A A_eq_dec s ->
   (F.ok_cls A T (F.vstar A h T s) s /\ F.ok_ext A A_eq_dec (F.vstar A h T s) s) /\
   forall v, F.ok_cls A T v s -> F.ok_ext A A_eq_dec v s -> forall z, 0 < z < F.nxt A s -> v z = F.vstar A h T s z.
 Proof.
-  intros A D h s T I G. split; [exact (F.exists_full A D boolean_clauses_spec tel_clauses_spec make_equal_spec h s I G T)|].
-  intros v Hc He. exact (F.unique_full A D h s I G T v Hc He).
+  intros A D h s T I G W. split; [exact (F.exists_full A D boolean_clauses_spec tel_clauses_spec make_equal_spec (reduce_eqs_hold A) h s I G W T)|].
+  intros v Hc He. exact (F.unique_full A D (reduce_eqs_hold A) h s I G W T v Hc He).
 Qed.
 (* tie to the source: the clause groups REGENERATED from theory/body.py are definitional - whatever values the argument
    literals have, exactly one value of the node's own literal violates no constraint (so a formula literal is a choice atom
